@@ -466,6 +466,7 @@ pub mod q {
         remove_ops!(rm1, U1, 1, 5);
         remove_ops!(rm2, U2, 2, 6);
         remove_ops!(rm4, U4, 4, 8);
+        remove_ops!(rm7, U7, 7, 11);
         flatten_only!(fl_0_0, U0, 0, U0, 0, 4);
         flatten_ops!(fl_2_0, U2, 2, U0, 0, 4);
         flatten_ops!(fl_1_1, U1, 1, U1, 1, 5);
